@@ -160,12 +160,15 @@ def _stepcheck(v, tier, seed, mode="th", family="C07", explored=None):
     runs = sum(r_["runs"] for r_ in res)
     acc = sum(r_["accepted"] for r_ in res)
     v.drift += runs - acc
-    bad_mc = [(r_["scenario"], r_["mc"]["violated"]) for r_ in res if r_["mc"] and not r_["mc"]["ok"]]
+    bad_mc = [(r_["scenario"], r_["mc"]["violated"]) for r_ in res
+              if r_["mc"] and not r_["mc"]["ok"] and not r_["mc"].get("timeout")]
     v.coverage["impl_model"] = {
         "scenarios_model_checked": sum(1 for r_ in res if r_["mc"]),
         "model_states": sum(r_["mc"]["distinct"] for r_ in res if r_["mc"]),
         "model_transitions": sum(r_["mc"]["generated"] for r_ in res if r_["mc"]),
         "model_violations": bad_mc,
+        "model_checks_not_finished_in_time": [r_["scenario"] for r_ in res
+                                              if r_["mc"] and r_["mc"].get("timeout")][:20],
         "recorded_executions_validated": runs, "accepted_by_model": acc,
         "events_matched": sum(r_.get("events", 0) for r_ in res),
         "rejected_samples": [dict(scenario=r_["scenario"], **r_["stuck"][0]) for r_ in res if r_["stuck"]][:5],
